@@ -17,7 +17,11 @@ Ltac prop_bools :=
 
 Ltac split_ifs :=
   repeat match goal with
-  | |- context [if ?b then _ else _] => let H := fresh "C" in destruct b eqn:H
+  | |- context [if ?b then _ else _] =>
+      lazymatch b with
+      | context [if _ then _ else _] => fail
+      | _ => let H := fresh "C" in destruct b eqn:H
+      end
   end.
 
 (* ---------------------------------------------------------------------------------------- *)
@@ -74,17 +78,21 @@ Qed.
 (* ---------------------------------------------------------------------------------------- *)
 (* unfolding equations for runes *)
 
-Lemma runes_f_enough : forall n s, (length s <= n)%nat -> runes_f n s = runes_f (length s) s.
+Lemma runes_f_eq : forall n m s, (length s <= n)%nat -> (length s <= m)%nat -> runes_f n s = runes_f m s.
 Proof.
-  induction n as [|n IH]; intros s L.
-  - destruct s; [reflexivity | cbn in L; lia].
-  - destruct s as [|b r]; [reflexivity|].
-    cbn [runes_f length]. f_equal.
+  induction n as [|n IH]; intros m s Ln Lm.
+  - destruct s; [destruct m; reflexivity | cbn in Ln; lia].
+  - destruct s as [|b r]; [destruct m; reflexivity|].
+    destruct m as [|m]; [cbn in Lm; lia|].
+    cbn [runes_f]. f_equal.
     pose proof (dec_width (b :: r)) as W.
     assert (L2 : (length (skipn (snd (dec (b :: r))) (b :: r)) <= length r)%nat).
     { rewrite skipn_length. cbn [length]. lia. }
-    rewrite (IH _ (Nat.le_trans _ _ _ L2 (le_S_n _ _ L))). symmetry. apply IH. exact L2.
+    cbn [length] in Ln, Lm. apply IH; lia.
 Qed.
+
+Lemma runes_f_enough : forall n s, (length s <= n)%nat -> runes_f n s = runes_f (length s) s.
+Proof. intros n s L. apply runes_f_eq; lia. Qed.
 
 Lemma runes_nil : runes [] = [].
 Proof. reflexivity. Qed.
@@ -229,7 +237,7 @@ Lemma offs_mono : forall k s, (offs s k <= offs s (S k))%nat.
 Proof.
   intros k s. unfold offs. revert k. generalize (widths s). induction l as [|w l IH]; intros k.
   - destruct k; cbn; lia.
-  - destruct k; [cbn; lia|]. cbn [firstn list_sum]. specialize (IH k). cbn [firstn] in IH. lia.
+  - destruct k; [cbn; lia|]. specialize (IH k). change (w + list_sum (firstn k l) <= w + list_sum (firstn (S k) l))%nat. lia.
 Qed.
 
 Lemma offs_mono_le : forall s j k, (j <= k)%nat -> (offs s j <= offs s k)%nat.
@@ -247,7 +255,7 @@ Lemma runes_skipn_offs : forall k s, runes (skipn (offs s k) s) = skipn k (runes
 Proof.
   induction k as [|k IH]; intros s; [reflexivity|].
   destruct s as [|b r]; [reflexivity|].
-  rewrite offs_S by discriminate. rewrite (runes_cons (b :: r)) at 2 by discriminate.
+  rewrite offs_S by discriminate. rewrite (runes_cons (b :: r)) by discriminate.
   cbn [skipn]. rewrite <- IH. f_equal. rewrite Nat.add_comm. symmetry. apply skipn_skipn.
 Qed.
 
@@ -278,7 +286,7 @@ Lemma runes_firstn_offs : forall k s, runes (firstn (offs s k) s) = firstn k (ru
 Proof.
   induction k as [|k IH]; intros s; [reflexivity|].
   destruct s as [|b r]; [reflexivity|].
-  rewrite offs_S by discriminate. rewrite (runes_cons (b :: r)) at 2 by discriminate.
+  rewrite offs_S by discriminate. rewrite (runes_cons (b :: r)) by discriminate.
   cbn [firstn].
   set (w := snd (dec (b :: r))). set (t := skipn w (b :: r)).
   pose proof (dec_width (b :: r)) as W. fold w in W.
